@@ -56,6 +56,8 @@ def field_names(facts, adt):
 
 def check(ctx):
     facts = ctx.facts('prod')
+    import versions_abs as _va
+    _va.check_forgiveness_value(ctx, facts, 'C08.F')      # (round 8, C01i) the forgiveness period of the non-test build is the stated hour
     cg = CallGraph(facts)
     # P6: the purge cut-offs travel with the state: the decode entry point does not rebuild or drop them (codec_abs)
     import codec_abs
